@@ -48,6 +48,12 @@ def plan(tier, focus, label):
         if idx3 and (tier != 'quick' or (label == 'CY' and ch in ('U1', 'Z3'))):
             for k in range(1 if tier == 'quick' else 3):
                 us.append(('bfs', ch, idx3[(k * 5 + ci) % len(idx3)], None, None, None, 2))
+        # tensors without any stored block (rank 2 and 3): the zero-block shortcuts of every producer -> consumer pair
+        for fam in ('r2', 'r3'):
+            idx0 = [i for i, (_s, f) in enumerate(seeds) if f == fam and not _s[0]['present']]
+            if idx0 and (tier != 'quick' or label == 'CY'):
+                for k in range(1 if tier == 'quick' else 3):
+                    us.append(('bfs', ch, idx0[(k * 7 + ci + len(idx0) // 2) % len(idx0)], None, None, None, 2))
         if tier != 'quick':
             idx = [i for i, (_s, f) in enumerate(seeds) if f == 'r1+conj']
             us.append(('bfs', ch, idx[len(idx) // 2], None, None, None, 3))
